@@ -17,3 +17,7 @@ open RV.C05
 #print axioms nqparser_refines_reference
 #print axioms ntparser_lenient_forms
 #print axioms ntparser_error_kinds
+#print axioms ntparser_doc_refines_reference
+#print axioms nqparser_doc_refines_reference
+#print axioms nt_write_parse_roundtrip
+#print axioms ntparser_doc_lenient
